@@ -33,6 +33,12 @@ def build_cases(tier):
     # constant-flag guards: a function whose only call sites are in pruned code must not be emitted at all
     for c in F.dead(tier):
         cases.append(dict(c, variants=CONV))
+    # nested inlining with suffix / prefix name pairs: nothing may be left behind the main code
+    from .c05 import is_f05b
+
+    for c in F.names_inline():
+        vv = [v for v in CONV if (c["family"] != "NAMESINL-TERM" or v["inline_functions"])]
+        cases.append(dict(c, variants=vv, family=("W-F05b" if is_f05b(c["names"]) else c["family"])))
     step = 3 if tier == "quick" else 1
     for c in F.func(tier)[::step] + F.func2(tier)[::step]:
         cases += common.split_call_case(c, CONV)
